@@ -28,7 +28,11 @@ PROP = dict(
         "singular_vertices_same_faces_same_answer / singular_vertices_fresh_mesh (the stack search on the history-ordered slices reports the vertices whose fan graph is disconnected), manifold2_after_any_history (2-D Manifold on the slices), "
         "needs_repair_fan_below_two_prefilter_sound / needs_repair_fan_below_three_prefilter_unsound (a shortcut that looks at the cached index is harmless iff it only fires on meshes that need repair: 'a vertex with < 2 triangles' is, "
         "'< 3 triangles' is not - the double cover of a triangle has every edge used twice), gate= is the NeedsRepair / Manifold gate of MeshToHierarchy; "
-        "no_singular_vertices_fan_connected / closed_manifold_iff_diagnostics_clean (the driver's cross-check fanConnected = (sv = {}) on edge-balanced cases is now a theorem: the three 3-D diagnostics are clean iff the mesh is a Surface.ClosedManifold). "
+        "no_singular_vertices_fan_connected / closed_manifold_iff_diagnostics_clean (the driver's cross-check fanConnected = (sv = {}) on edge-balanced cases is now a theorem: the three 3-D diagnostics are clean iff the mesh is a Surface.ClosedManifold); "
+        "self3 (Mesh.SelfIntersections): self_intersections_eq_exhaustive (the sum over the faces of what the hierarchy of MeshToCollider returns = the number of ordered pairs of faces for which Triangle.TriangleCollisions reports a segment, for EVERY hierarchy over the faces - "
+        "any shape, width, grouping - and every iteration order: the bounds test min > max never hides a pair, because a reported pair has a common point, which lies in the bounding box of the query and in the bounds of every node holding the other face, also when a box has no thickness), "
+        "self_intersections_counts_crossing_pairs (a counted pair shares at most one vertex and has two different common points: the faces cut through each other along the reported segment), self_intersections_zero_iff (0 iff no ordered pair reports; 0 whenever faces with at most one common vertex meet in at most one point), "
+        "self_intersections_volume_gate_unsound (two faces in the planes z = 0 and x = 1/2 that cut through each other: definition 2, hierarchy of the source 2, a bounds test that wants a common VOLUME of the boxes 0 - the seeded change C11-13 at model level). "
         "The driver prints what the DEFINITIONS give (edge multiplicities, naive closures, exact rational even-odd ray casting, Surface's proved "
         "deciders) and flags any disagreement between a faithful model and its definition (MODELDIFF), so a difference with the real output is a failing input."
     ),
@@ -60,6 +64,10 @@ PROP = dict(
         "existed after each call (hook VerifMeshHasIndex); counted: hist3:nr-observed-with-index-cached(-on-closed-mesh-with-a-2-fan-vertex), ...-without-index; 2-D: segments split, digons and triangles added, Manifold / "
         "InconsistentVertices / the MeshToHierarchy gate observed; fixed histories: the double cover alone before/after each index-building call, next to and touching a tetrahedron, grown face by face on an index built for the "
         "empty mesh, a tetrahedron emptied and refilled, opened and closed with the index cached, two tetrahedra touching in a vertex whose pointers are all added again (index built by SingularVertices / VertexSlice / not at all) before one of them is removed; diag3 / diagd3 call the four diagnostics in the declaration order (1/2) or a random order (recorded in section O), the fixed inputs in both; "
+        "SELF-INTERSECTIONS (self3): scenes of 1-4 objects whose faces mostly lie exactly in axis-aligned planes - boxes (NewMeshRect, also slabs/needles), flat plates in a random axis plane cut into 1..4 x 1..4 cells (so that inner nodes of the hierarchy have bounding boxes without thickness too), "
+        "next to icospheres, octahedra and random triangles: boxes through boxes, a box through an icosphere, perpendicular plates, plate through box / sphere, two spheres (slanted control), single objects and disjoint objects (must report 0); the objects of a scene take their coordinates from different residue classes of the 1/32 grid; "
+        "every pair of faces whose bounding boxes meet is classified with big.Rat and a scene is used only if no pair is one where rounding may decide (see self.go); 8 fixed scenes (two boxes, box through sphere, two plates plain and subdivided, plate through box, two spheres, clean box, disjoint boxes); "
+        "counted: self3:meshes-that-cut-through-themselves (13 of 27 at seed 1), self3:meshes-with-a-crossing-of-an-axis-aligned-face (12), self3:crossing-ordered-pairs(-with-an-axis-aligned-face); "
         "plus a fixed list of edge cases; distinct = distinct operation lines"
     ),
     trusted=[
@@ -76,6 +84,9 @@ PROP = dict(
         "2-D hierarchy: hierarchy2_partition is proved for closed oriented curves (Surface.InOutOne) and every oracle; nesting / Contains of the 2-D forest follow the generic forest theorems (hierarchy_nesting, hierarchy_contains_eq_evenodd are stated on the 3-D loop) and are checked by correspondence (hier2)",
         "histories: the stateful model (M3d/Model/MeshDiagHist.lean) covers Add / Remove / Copy / index-building calls and NeedsRepair / InconsistentEdges / SingularVertices / 2-D Manifold on the state; Orientable / RepairNormalsMajority and "
         "2-D InconsistentVertices on a state are compared with their definitions on the current face list (their order abstraction - Neighbors answers like a fresh list - is C09's theorem); CoordToSlice as an association list (C09 proves the real map behaves like one)",
+        "SelfIntersections (self3): Triangle.TriangleCollisions and the n-ary hierarchy are C07's models (M3d.Col.triTri, bvhTriTri, boxOverlap3; C07 ties them to the source with tritrix / mtritrix and proves triangle_collisions_iff), reused read-only; the theorems are over ordered fields with an exact square root, the source computes in float64: "
+        "the harness only uses scenes in which, for every pair of faces with meeting bounding boxes, the exact answer is far from every threshold of the float computation (>= 2 common vertices, exactly parallel planes, at most one common point - there the computed parameter ranges can only meet in a stretch of rounding size, dropped by the 1e-8 'collision at a vertex' filter - or a common segment longer than 1e-5 in general position); "
+        "the shape of the hierarchy MeshToCollider builds is not modelled (the theorem is for every hierarchy; the driver runs the faithful model over a binary split as a cross-check, MODELDIFF:self)",
         "Gen/HierAxis.lean: the literals of var arbitraryAxis read with go/ast (plain decimal literals only; anything else breaks the generator and is reported); the sign theorems are about the exact decimal values, the float64 values are their roundings (same signs)",
     ],
     assumptions=[
@@ -98,11 +109,11 @@ PROP = dict(
         "when the axis has no negative component (2-D yes, 3-D no); 2-D Manifold/InconsistentVertices "
         "<-> Surface.InOutOne; 2-D RepairNormals restores what its oracle reports; the probe of RepairNormals (2-D and 3-D) lies at distance exactly epsilon from the centre of the face whatever its size, any two probes inside the clearance of a face give the same answer, and with clearance on both sides every re-orientation of an outward-oriented 2-D mesh is undone (a probe without normalisation is epsilon*|face| away and fails on the 1000 x 1 plate); the three 3-D diagnostics are all clean iff the mesh is a closed oriented manifold (every link one cycle - both directions proved); "
         "on a mesh with a history (Add, Remove, Copy, lazily built and incrementally maintained vertex index) the index describes the current face set after every history, NeedsRepair / SingularVertices / 2-D Manifold answer as their definitions on the "
-        "current faces whatever the history and whether or not the index is cached, and a shortcut in NeedsRepair that reads the cached index is sound for 'some vertex has < 2 triangles' but not for '< 3' (double-covered triangle). Tie: the real diagnostics, repairs and hierarchies on damaged meshes are diffed against the definitions evaluated in Lean "
+        "current faces whatever the history and whether or not the index is cached, and a shortcut in NeedsRepair that reads the cached index is sound for 'some vertex has < 2 triangles' but not for '< 3' (double-covered triangle); SelfIntersections through every bounding-volume hierarchy over the faces = the number of ordered pairs of faces that Triangle.TriangleCollisions reports (the bounds test never hides a pair, flat boxes included), and a counted pair cuts through each other along a segment. Tie: the real diagnostics, repairs and hierarchies on damaged meshes are diffed against the definitions evaluated in Lean "
         "(exact rational even-odd), with the faithful models run alongside."
     ),
     level_note=(
-        "Proved about the models in lean/M3d/Model/MeshDiag.lean, MeshDiagSweep.lean and MeshDiagHist.lean; models tied to /repo by correspondence (13 kinds, 3-D and 2-D), the regenerated sweep axes (Gen/HierAxis.lean), the regenerated Dot (KernelsTieHier) and the regenerated Segment.Mid / Segment.Normal / Triangle.Normal (KernelsTieProbe). Trusted: Lean kernel, "
+        "Proved about the models in lean/M3d/Model/MeshDiag.lean, MeshDiagSweep.lean, MeshDiagHist.lean, MeshDiagProbe.lean and MeshDiagSelf.lean (the latter on C07's CollideQuery / CollideBVH models); models tied to /repo by correspondence (14 kinds, 3-D and 2-D), the regenerated sweep axes (Gen/HierAxis.lean), the regenerated Dot (KernelsTieHier) and the regenerated Segment.Mid / Segment.Normal / Triangle.Normal (KernelsTieProbe). Trusted: Lean kernel, "
         "propext/Classical.choice/Quot.sound, Go harness + Lean driver, the abstractions listed under trusted. One defect found and fixed (5660fd7: "
         "SingularVertices never joined coincident triangles)."
     ),
